@@ -1454,6 +1454,19 @@ def fold_cases(ctx, prop, rows=None):
         for top in ("val", "ptr"):
             cases.append(case(prop, "fold", "go", sub=dict(T=UT, V=uv, top=top), origin="field identifiers with non-ASCII upper-case letters"))
         cases.append(case(prop, "fold", "go", sub=dict(T=dict(k="slice", e=[UT]), V=dict(k="slice", e=[uv, uv]), top="val"), origin="field identifiers with non-ASCII upper-case letters, in a slice"))
+    # a registered folder for a type that has the SHAPE OF A POINTER (struct{P *int}): by value, by pointer, in fields,
+    # slices, maps, arrays and below interface{} - wherever reflection stores the value itself instead of its address
+    RW = dict(k="named", id="RegW")
+    for wv in (dict(k="struct", f=[dict(k="ptr", e=[Iv(7)])]), dict(k="struct", f=[dict(k="ptr", nil=True)])):
+        holders = [(RW, wv), (dict(k="ptr", e=[RW]), dict(k="ptr", e=[wv])),
+                   (dict(k="struct", f=[dict(name="F", tname="", opts=[], t=RW), dict(name="Q", tname="", opts=[], t=dict(k="int"))]), dict(k="struct", f=[wv, Iv(1)])),
+                   (dict(k="slice", e=[RW]), dict(k="slice", e=[wv, wv])), (dict(k="map", e=[RW]), dict(k="map", m=[dict(key=list(b"k"), val=wv)])),
+                   (dict(k="array", n=1, e=[RW]), dict(k="array", e=[wv])),
+                   (dict(k="iface"), dict(k="iface", dyn=[RW], e=[wv])),
+                   (dict(k="slice", e=[dict(k="iface")]), dict(k="slice", e=[dict(k="iface", dyn=[RW], e=[wv])]))]
+        for T, V in holders:
+            for top in ("val", "ptr"):
+                cases.append(case(prop, "fold", "go", sub=dict(T=T, V=V, top=top), origin="registered folder for a pointer-shaped type"))
     # a field whose static type is a NON-EMPTY interface (the library's own gotype.Folder): nil folds as null, a value as
     # its folder emits it
     FI = dict(k="iface", id="folder")
